@@ -46,6 +46,17 @@
 #include "scpi/constants.h"
 #include "scpi/utils.h"
 
+#ifdef SCPI_PARSER_VERIF
+/* verification hook: make reads beyond the logical end of the input buffer trap under ASan */
+#include <sanitizer/asan_interface.h>
+#define SCPI_VERIF_POISON_TAIL(c) do { \
+        ASAN_UNPOISON_MEMORY_REGION((c)->buffer.data, (c)->buffer.length); \
+        if ((c)->buffer.position + 1 < (c)->buffer.length) { \
+            ASAN_POISON_MEMORY_REGION((c)->buffer.data + (c)->buffer.position + 1, (c)->buffer.length - (c)->buffer.position - 1); \
+        } \
+    } while (0)
+#endif
+
 /**
  * Write data to SCPI output
  * @param context
@@ -318,10 +329,19 @@ scpi_bool_t SCPI_Input(scpi_t * context, const char * data, int len) {
     size_t totcmdlen = 0;
     int cmdlen = 0;
 
+#ifdef SCPI_PARSER_VERIF
+    ASAN_UNPOISON_MEMORY_REGION(context->buffer.data, context->buffer.length);
+#endif
     if (len == 0) {
         context->buffer.data[context->buffer.position] = 0;
+#ifdef SCPI_PARSER_VERIF
+        SCPI_VERIF_POISON_TAIL(context);
+#endif
         result = SCPI_Parse(context, context->buffer.data, context->buffer.position);
         context->buffer.position = 0;
+#ifdef SCPI_PARSER_VERIF
+        SCPI_VERIF_POISON_TAIL(context);
+#endif
     } else {
         int buffer_free;
 
@@ -336,6 +356,9 @@ scpi_bool_t SCPI_Input(scpi_t * context, const char * data, int len) {
         memcpy(&context->buffer.data[context->buffer.position], data, len);
         context->buffer.position += len;
         context->buffer.data[context->buffer.position] = 0;
+#ifdef SCPI_PARSER_VERIF
+        SCPI_VERIF_POISON_TAIL(context);
+#endif
 
 
         while (1) {
@@ -347,6 +370,9 @@ scpi_bool_t SCPI_Input(scpi_t * context, const char * data, int len) {
                 memmove(context->buffer.data, context->buffer.data + totcmdlen, context->buffer.position - totcmdlen);
                 context->buffer.position -= totcmdlen;
                 totcmdlen = 0;
+#ifdef SCPI_PARSER_VERIF
+                SCPI_VERIF_POISON_TAIL(context);
+#endif
             } else {
                 if (context->parser_state.programHeader.type == SCPI_TOKEN_UNKNOWN
                         && context->parser_state.termination == SCPI_MESSAGE_TERMINATION_NONE) break;
